@@ -40,8 +40,56 @@ def install(R):
 
     R.symbols["crash_check"] = crash_check
 
-    def fs_step(eng, fr, what, path, node):
+    # ------------------------------------------------------------------ rely / guarantee (C11)
+    def rg_contract(eng, fr):
+        c = getattr(eng, "_rg_contract", None)
+        return c if (c is not None and (c.rely or c.guar)) else None
+
+    def rg_before(eng, fr, node):
+        """interference point: other processes may have changed the file system in any way their guarantee (our rely) allows"""
+        c = rg_contract(eng, fr)
+        if c is None or not c.rely:
+            return None
+        st = fr.st
+        pre = st.fork()
+        pre.env = dict(st.env)
+        for nm in ("FS_ex", "FS_ct", "FS_ok"):
+            cur = st.ghost[nm].t
+            st.ghost[nm] = SV("z3", z3.Const(fresh_name(nm + "@i"), cur.sort()))
+        f2 = fr.sub(spec=True, old=pre)
+        for name, f in eng.eval_clauses(c.rely, f2):
+            st.assume(f)
+        st.events.append(Event("fs", "interference", [], {}, getattr(node, "lineno", None)))
+        return pre
+    R.symbols["rg_before"] = rg_before
+
+    def rg_snapshot(eng, fr):
+        if rg_contract(eng, fr) is None:
+            return None
+        pre = fr.st.fork()
+        pre.env = dict(fr.st.env)
+        return pre
+
+    def rg_after(eng, fr, pre, what, node):
+        """the step just made satisfies the guarantee (two-state: `pre` -> now)"""
+        c = rg_contract(eng, fr)
+        if c is None or pre is None or not c.guar:
+            return
+        k = sum(1 for e in fr.st.events if e.kind == "fs" and e.name not in ("query", "interference"))
+        f2 = fr.sub(spec=True, old=pre)
+        for name, f in eng.eval_clauses(c.guar, f2):
+            eng.emit(f2, f"{name}.step{k}_{what}", f, kind="guar", line=getattr(node, "lineno", None))
+    R.symbols["rg_after"] = rg_after
+
+    def own(st):
+        g = st.ghost
+        if "FS_own" not in g:
+            g["FS_own"] = SV("z3", z3.K(V, z3.BoolVal(False)))
+        return g["FS_own"].t
+
+    def fs_step(eng, fr, what, path, node, pre=None):
         fr.st.events.append(Event("fs", what, [path], {}, getattr(node, "lineno", None)))
+        rg_after(eng, fr, pre, what, node)
         crash_check(eng, fr, what, node)
 
     def ext_open(eng, fr, p, args, kwargs, node):
@@ -52,6 +100,8 @@ def install(R):
             raise Unsupported("open() with a dynamic mode")
         m = mode.t.as_string()
         pv = eng.as_V(path)
+        rg_before(eng, fr, node)
+        pre = rg_snapshot(eng, fr)
         g = st.ghost
         line = getattr(node, "lineno", None)
         if "w" in m:
@@ -59,21 +109,27 @@ def install(R):
             g["FS_ex"] = SV("z3", z3.Store(g["FS_ex"].t, pv, z3.BoolVal(True)))
             g["FS_ok"] = SV("z3", z3.Store(g["FS_ok"].t, pv, z3.BoolVal(False)))
             g["FS_ct"] = SV("z3", z3.Store(g["FS_ct"].t, pv, z3.Const(fresh_name("partial"), V)))
-            fs_step(eng, fr, "open_w", path, node)
+            if shows_tmp(pv):
+                # a scratch name made unique by a fresh uuid: this activation owns it (no other process opens it: assumed)
+                g["FS_own"] = SV("z3", z3.Store(own(st), pv, z3.BoolVal(True)))
+            fs_step(eng, fr, "open_w", path, node, pre)
             s2 = st.fork()
 
             def enter(eng_, fr_, s_):
                 return [Outcome("normal", fr_.st, val=handle)]
 
             def exit_(eng_, fr_, s_, body_outcome):
+                rg_before(eng_, fr_, s_)
+                pre2 = rg_snapshot(eng_, fr_)
                 g2 = fr_.st.ghost
                 if body_outcome.kind != "raise":
                     g2["FS_ok"] = SV("z3", z3.Store(g2["FS_ok"].t, pv, z3.BoolVal(True)))      # close after a complete dump
-                fs_step(eng_, fr_, "close", path, s_)
+                fs_step(eng_, fr_, "close", path, s_, pre2)
                 return [Outcome("normal", fr_.st)]
             handle = mk_py({"file": path, "mode": "w", "enter": enter, "exit": exit_})
             return [Outcome("normal", st, val=handle), Outcome("raise", s2, exc=SExc("OSError", line=line, origin="open"))]
         # read
+        g = st.ghost
         ex = z3.Select(g["FS_ex"].t, pv)
         s2 = st.fork()
         s2.assume(z3.Not(ex))
@@ -92,10 +148,12 @@ def install(R):
         if not (fh.k == "py" and isinstance(fh.t, dict) and "file" in fh.t):
             raise Unsupported("pickle.dump to an unknown file object")
         pv = eng.as_V(fh.t["file"])
+        rg_before(eng, fr, node)
+        pre = rg_snapshot(eng, fr)
         g = st.ghost
         s2 = st.fork()          # a write error (disk full): content stays partial
         g["FS_ct"] = SV("z3", z3.Store(g["FS_ct"].t, pv, eng.as_V(obj)))
-        fs_step(eng, fr, "write", fh.t["file"], node)
+        fs_step(eng, fr, "write", fh.t["file"], node, pre)
         return [Outcome("normal", st, val=NONE), Outcome("raise", s2, exc=SExc("OSError", line=getattr(node, "lineno", None), origin="pickle.dump"))]
     R.externals["pickle.dump"] = ext_dump
 
@@ -105,11 +163,13 @@ def install(R):
         if not (fh.k == "py" and isinstance(fh.t, dict) and "file" in fh.t):
             raise Unsupported("pickle.load from an unknown file object")
         pv = eng.as_V(fh.t["file"])
+        rg_before(eng, fr, node)
         g = st.ghost
         ok = z3.Select(g["FS_ok"].t, pv)
         s2 = st.fork()
         s2.assume(z3.Not(ok))
         st.assume(ok)
+        st.events.append(Event("fs", "load", [fh.t["file"]], {}, getattr(node, "lineno", None), extra={"complete": z3.And(z3.Select(g["FS_ex"].t, pv), ok)}))
         outs = [Outcome("normal", st, val=mk_V(z3.Select(g["FS_ct"].t, pv)))]
         if eng.feasible(s2):
             outs.append(Outcome("raise", s2, exc=SExc("EOFError", line=getattr(node, "lineno", None), origin="pickle.load")))
@@ -119,25 +179,29 @@ def install(R):
     def ext_replace(eng, fr, p, args, kwargs, node):
         st = fr.st
         src, dst = eng.as_V(args[0]), eng.as_V(args[1])
+        rg_before(eng, fr, node)
+        pre = rg_snapshot(eng, fr)
         g = st.ghost
         s2 = st.fork()
         e, c, o = g["FS_ex"].t, g["FS_ct"].t, g["FS_ok"].t
         g["FS_ex"] = SV("z3", z3.Store(z3.Store(e, dst, z3.Select(e, src)), src, z3.BoolVal(False)))
         g["FS_ct"] = SV("z3", z3.Store(c, dst, z3.Select(c, src)))
         g["FS_ok"] = SV("z3", z3.Store(o, dst, z3.Select(o, src)))
-        fs_step(eng, fr, "rename", args[1], node)
+        fs_step(eng, fr, "rename", args[1], node, pre)
         return [Outcome("normal", st, val=NONE), Outcome("raise", s2, exc=SExc("OSError", line=getattr(node, "lineno", None), origin="os.replace"))]
     R.externals["os.replace"] = ext_replace
 
     def ext_remove(eng, fr, p, args, kwargs, node):
         st = fr.st
         pv = eng.as_V(args[0])
+        rg_before(eng, fr, node)
+        pre = rg_snapshot(eng, fr)
         g = st.ghost
         s2 = st.fork()
         s2.assume(z3.Not(z3.Select(g["FS_ex"].t, pv)))
         st.assume(z3.Select(g["FS_ex"].t, pv))
         g["FS_ex"] = SV("z3", z3.Store(g["FS_ex"].t, pv, z3.BoolVal(False)))
-        fs_step(eng, fr, "remove", args[0], node)
+        fs_step(eng, fr, "remove", args[0], node, pre)
         outs = [Outcome("normal", st, val=NONE)]
         if eng.feasible(s2):
             outs.append(Outcome("raise", s2, exc=SExc("FileNotFoundError", line=getattr(node, "lineno", None), origin="os.remove")))
